@@ -107,7 +107,7 @@ def judge(rep, behaviours, trace, prop, names, trace_cfg='Trace_Replication.cfg'
     by_id = {b['id']: b for b in behaviours}
     bad, drifting, drift_lines = {}, [], {}
     # drift on variables that are part of the replicated state (not internal bookkeeping)
-    material = {'log', 'hw', 'ec', 'role', 'up', 'meta', 'acks', 'guard', 'skipped'}
+    material = {'log', 'hw', 'ec', 'role', 'up', 'meta', 'acks', 'guard', 'skipped', 'tick-guard'}
     for f in res['fails']:
         kind, tid, line, action, name, taint = f
         if kind == 'I':
